@@ -347,6 +347,26 @@ PROPS['C19'] = {
     'bounded': ['twins'],
 }
 PROPS['C07']['units'].append('annot')
+PROPS['C10'] = {
+    'units': ['kw', 'doc_kotlin', 'doc_swift', 'doc_scala', 'doc_go', 'doc_ts'],
+    'title': 'generated files are lexically well-formed: comments are closed, keyword collisions are escaped (two clause kernels)',
+    'technique': 'Verus contracts on the keyword-escaping helpers swift_keyword_aware_rename and python_property_aware_rename (extracted verbatim; '
+                 'format! through literal-generated contracts; keyword tables and convert_case as uninterpreted functions) and, for the clause '
+                 '"comments are closed", the comment-writer contracts of C15 (Kotlin, Swift, Scala, Go line comments; TypeScript block comment)',
+    'level_text': 'Keyword clause: for every name, Swift writes it in backquotes exactly when the back end\'s table lists it and unchanged otherwise; '
+                  'Python writes name + `_` exactly when the snake-case form is listed and the snake-case form otherwise. Comment clause: every comment '
+                  'the five comment writers emit is closed where the writer closes it (each `//` line ends at its line feed; the TypeScript block comment '
+                  'contains no `*/` before its end), for every doc text.',
+    'level_note': 'Two clauses of the property only. That a whole output file is a valid compilation unit - every declaration matches the target\'s '
+                  'grammar, all delimiters and string literals are closed - is NOT proved and cannot be stated with the contracts here (it needs each '
+                  'grammar as specification and a proof over every writer): bounded stand-in cli_wellformed on the real binary - CPython\'s own '
+                  'parser for Python, and for the other five languages only a lexer-level check (comments, literals, brackets closed; no declaration '
+                  'grammar). The keyword tables are the back end\'s own ("where the backend promises to"). Known finding carved out by input: a quote '
+                  'in the serde(rename) of an algebraic enum\'s variant is not escaped by Kotlin, Swift and Python.',
+    'design_ref': 'DESIGN.md section 10.16',
+    'bounded': ['cli_wellformed'],
+}
+PROPS['C07']['units'].append('kw')
 PROPS['C03']['bounded'] = ['merge', 'tos']
 PROPS['C06']['bounded'] = ['merge', 'cli_determinism']
 PROPS['C11']['bounded'] = ['topo', 'deps']
@@ -358,9 +378,6 @@ PROPS['C20']['bounded'] = ['cfg_all', 'cli_config']
 PROPS['C07']['bounded'] = ['rename', 'topo', 'cli_robust']
 
 NOT_APPLICABLE = {
-    'C10': 'syntactic well-formedness of a whole output file is a statement about the grammar of six target languages; contracts here can state '
-           'fragments the property names (a type expression: C05, a member with its optional marker: C04, comment lines: C15) but not that a file '
-           'parses - that needs the grammars as specification and a proof over every writer - see DESIGN.md section 6 and section 9',
 }
 
 ALL_UNITS = sorted({u for p_ in PROPS.values() for u in p_.get('units', [])})
